@@ -534,7 +534,7 @@ def _prod_check(a, b, want, what):
     for i in range(4):
         for j in range(4):
             terms = [a[i][k] * b[k][j] for k in range(4)]
-            if abs(sum(terms) - want[i][j]) > TOL * max(1, abs(want[i][j]), sum(abs(x) for x in terms)):
+            if abs(sum(terms) - want[i][j]) > TOL * max(abs(want[i][j]), sum(abs(x) for x in terms)):
                 return "%s: entry (%d,%d) is %s, expected %s" % (what, i, j, float(sum(terms)), float(want[i][j]))
     return None
 
